@@ -145,9 +145,12 @@ func nontrivial(c Case) bool {
 }
 
 // a write of `key` with the given expiration, through one of the four writing methods
-func writeOp(r *prng.R, key, exp string) []kvx.Op {
+func writeOp(r *prng.R, key, exp string) []kvx.Op { return writeOpKind(r.Intn(4), r, key, exp) }
+
+// kind: 0 Create, 1 Put, 2 PutMany (batch with a record that does not expire), 3 Create + CasByVersion
+func writeOpKind(kind int, r *prng.R, key, exp string) []kvx.Op {
 	v := r.Range(1, 3)
-	switch r.Intn(4) {
+	switch kind {
 	case 0:
 		return []kvx.Op{{K: "C", Key: key, Val: v, Exp: exp}}
 	case 1:
@@ -329,9 +332,57 @@ func main() {
 			emit("inmem", fmt.Sprintf("C:two-waiters:first-leaves-after-%dms", d1), ops)
 		}
 	}
+	// D. sub-second expirations, probed inside the last second before the expiration and just after it.
+	//    Redis: ExpiresAt = two hours ahead with a sub-second part (.2/.5/.9 of the wall-clock second, or a
+	//    plain lease of 2h + 0.2/0.5/0.9 s), written through each of the four writing methods; miniredis is
+	//    moved to 850 / 500 / 100 ms before the expiration: every operation kind must still see the record;
+	//    then to 20 ms after it: gone. In-memory store: lease 250 ms, real sleeps to 80 ms before / 5 ms after.
+	repsD, repsDi := 3, 1
+	if thorough {
+		repsD, repsDi = 20, 5
+	}
+	for rep := 0; rep < repsD; rep++ {
+		for wk := 0; wk < 4; wk++ {
+			for kind := 0; kind < 9; kind++ {
+				for _, before := range []int64{850, 500, 100} {
+					idx++
+					r := prng.New(fl.Seed, "C06D", idx)
+					exp := prng.Pick(r, []string{"2h~200ms", "2h~500ms", "2h~900ms", "2h~900ms", "2h0.2s", "2h0.5s", "2h0.9s"})
+					var ops []kvx.Op
+					ops = append(ops, writeOp(r, "b", prng.Pick(r, []string{"1h", "3h", ""}))...)
+					ops = append(ops, writeOpKind(wk, r, "a", exp)...)
+					ops = append(ops, kvx.Op{K: "A", Key: "a", D: -before})
+					ops = append(ops, toucher(kind, "a", r, 5))
+					if r.Chance(1, 2) {
+						ops = append(ops, toucher(r.Intn(9), "a", r, 5))
+					}
+					ops = append(ops, kvx.Op{K: "A", Key: "a", D: 20})
+					ops = append(ops, toucher(r.Intn(9), "a", r, 5))
+					ops = append(ops, tailOp(r, []string{"1h", "-1h"}, 5))
+					emit("redis", fmt.Sprintf("D:redis:write%d:kind%d:before%dms", wk, kind, before), ops)
+				}
+			}
+		}
+	}
+	for rep := 0; rep < repsDi; rep++ {
+		for wk := 0; wk < 4; wk++ {
+			for kind := 0; kind < 9; kind++ {
+				idx++
+				r := prng.New(fl.Seed, "C06Di", idx)
+				var ops []kvx.Op
+				ops = append(ops, writeOpKind(wk, r, "a", "250ms")...)
+				ops = append(ops, kvx.Op{K: "A", Key: "a", D: -80})
+				ops = append(ops, toucher(kind, "a", r, 20))
+				ops = append(ops, kvx.Op{K: "A", Key: "a", D: 5})
+				ops = append(ops, toucher(r.Intn(8), "a", r, 20))
+				emit("inmem", fmt.Sprintf("D:inmem:write%d:kind%d", wk, kind), ops)
+			}
+		}
+	}
 	s.Close("streams: A (both backends) key a holds a record that expired 1h ago / expires in 1h / never, written through Create, Put, PutMany or CasByVersion; "+
 		"B (redis) leases 1h/2h0m1s/none and miniredis FastForward 2h (the live record is 1 s from its expiration when first touched); C (inmem, real time) leases 30ms/10s or 120ms/none and a real sleep of 45 ms. In every stream each of the nine "+
 		"operation kinds (Create, Get, GetMany, Put, PutMany, CasByVersion, Delete, ListKeys, WaitForVersionChange) is the first to touch key a in each of the three states, "+
+		"D (sub-second): Redis ExpiresAt two hours ahead with a sub-second part, written through Create / Put / PutMany (mixed batch) / Create+CasByVersion, miniredis moved to 850/500/100 ms before the expiration (every kind must see the record) and to 20 ms after it (gone); in-memory lease 250 ms with real sleeps to 80 ms before / 5 ms after. Streams A-C: the first toucher is "+
 		"followed by a seeded random tail of 1-7 operations (CasByVersion as first toucher with the current, a stale, an unknown and the empty version); stream C also has a waiter that is parked "+
 		"before its record expires, and two concurrent waiters of which the first registered leaves early; each call's measured interval goes to the model, an expiration within 2 ms of a call is accepted either way. "+
 		"distinct = by content hash; non-trivial = at least 3 operations including a write with an expiration", false)
